@@ -146,8 +146,9 @@ class VQ(V):
     """Quantified boolean: forall var in [lo, hi): body(var). Only valid as a whole contract clause."""
     kind = "q"
 
-    def __init__(self, lo, hi, body):
+    def __init__(self, lo, hi, body, sort="int", guard=None):
         self.lo, self.hi, self.body = lo, hi, body   # lo/hi z3 Int, body: z3 Int -> z3 Bool
+        self.sort, self.guard = sort, guard          # sort "str": quantifier over the keys of a dict (guard = membership)
 
 
 # heap cells ----------------------------------------------------------------
@@ -211,8 +212,10 @@ class HDict(object):
     """Dict with string keys. keys: Array String Bool; vals: Array String T (ek) or
     concrete dict when `items` is not None."""
 
-    def __init__(self, ek=None, keys=None, vals=None, items=None, default=False):
+    def __init__(self, ek=None, keys=None, vals=None, items=None, default=False, size=None):
         self.ek, self.keys, self.vals, self.items = ek, keys, vals, items
+        self.size = size           # z3 Int: number of keys (symbolic dicts), maintained by stores
+        # ek may be a tuple ("tuple", k1, k2, ...): then vals is a list of arrays, one per component
         self.default = default     # collections.defaultdict(lambda: None): a missing key reads as None
 
     def __repr__(self):
